@@ -16,7 +16,7 @@ def run(tier, seed, work, replay):
         sig_full=lambda ev, guards: ({"leak": sorted(ev["out"].get("leak", []))} if guards == ["G_C12_NothingElse"]
                                      else dict(sig(ev), audparam=ev["case"].get("audparam", "none"))))
     res.cov["rule"] = ("full product client A/B x caller x secret x verifier x challenge method x redirect x code state x "
-                       "credential placement x extra audience requested (6480 rows, TLC-enumerated); each row = real authorize + real token request, "
+                       "credential placement (header / form / header plus the code's client named in the form) x extra audience requested (7022 rows, TLC-enumerated); each row = real authorize + real token request, "
                        "released tokens decoded, verified under the served JWKS and used at userinfo; the code as seen by the browser, the ID token and a session cookie are presented to userinfo too (nothing else names a user)")
     res.cov["exhaustive"] = True
     res.cov["released"] = sum(1 for e in evs if e["out"]["released"])
